@@ -408,6 +408,14 @@ Section Methods.
     locked (meth_of (Snapshot w)) (
       Act ADItems (fun r => match r with XItems l => Ret (Ok (sort_items l)) | _ => Ret (Raise crash) end)).
 
+  (* __ne__: `return not (self == other)` *)
+  Definition m_ne (l : list (K * V)) : P (res bool) :=
+    locked MNe (
+      bind (m_eq_dict l) (fun r => match r with Ok b => Ret (Ok (negb b)) | Raise e => Ret (Raise e) end)).
+
+  (* __copy__: `with self._lock: return self.copy()` *)
+  Definition m_copy2 : P (res (list (K * V))) := locked MCopy2 m_copy.
+
   Definition ret_of {A} (f : A -> rv) (p : P (res A)) : P rv :=
     bind p (fun r => Ret (match r with Ok a => f a | Raise e => RExn e end)).
 
@@ -429,6 +437,8 @@ Section Methods.
     | Len => ret_of RNat m_len
     | Contains k => ret_of RBool (m_contains k)
     | Snapshot w => ret_of RItems (m_snapshot w)
+    | NeDict l => ret_of RBool (m_ne l)
+    | CopyCopy => ret_of RItems m_copy2
     end.
 End Methods.
 
